@@ -111,6 +111,7 @@ func HarnessCallback() {
 		}
 		st.authReq = ar
 	}
+	vrtNominalSigAlg = false
 	p := vrtNewProvider(st)
 
 	rb := vrtNewRequest("req", vrtStr("req.method"), "/login")
